@@ -645,6 +645,10 @@ def check_twin(case):
     if twin_error is None:
         try:
             twin = comp_cls(bank, window_function=window, **comp_kw_s) if window is not None else comp_cls(bank, **comp_kw_s)
+            if case.get("reuse"):
+                # explicitly constructed scale / bank / window objects are ordinary objects: the same
+                # instances may already have served another computer (the JSON path always builds fresh ones)
+                twin = comp_cls(bank, window_function=window, **comp_kw_s) if window is not None else comp_cls(bank, **comp_kw_s)
         except Exception as e:  # noqa
             twin_error = e
 
@@ -750,6 +754,7 @@ def twin_cases():
             "use_log": st.booleans(),
             "use_power": st.booleans(),
             "kaldi_shift": st.booleans(),
+            "reuse": st.sampled_from([False, False, True]),
             "signal": signal_specs(st.one_of(st.integers(200, 700), st.integers(100, 400), st.integers(0, 700), st.integers(0, 40))),
         }
     )
